@@ -49,6 +49,8 @@ pub struct ModuleLoader {
     pub(crate) source: Arc<Source>,
     pub(crate) native_fingerprints: HashMap<String, FileFingerprint>,
     pub(crate) manifest: Option<Manifest>,
+    // set when a manifest file exists but could not be read: native modules are refused then
+    pub(crate) manifest_error: Option<String>,
     pub(crate) loaded_native_modules: HashMap<String, LoadedNativeInfo>,
     pub(crate) next_call_site_slot: u16,
 }
